@@ -113,9 +113,33 @@ func (f *verifFaulty) Exists(ctx context.Context, path string, key string) (bool
 
 // GetCacheBackend wraps the real constructor (renamed by the overlay).
 func GetCacheBackend(ctx context.Context, cacheConfig config.CacheConfig) (CacheBackend, error) {
-	inner, err := verifOrigGetCacheBackend(ctx, cacheConfig)
-	if err != nil {
-		return nil, err
+	var inner CacheBackend
+	var err error
+	if remoteDir := os.Getenv("VERIF_REMOTE_DIR"); remoteDir != "" {
+		// a remote object store faked by a directory, behind the REAL RemoteWrapper
+		fs, fsErr := NewFileSystemCache(ctx)
+		if fsErr != nil {
+			return nil, fsErr
+		}
+		remote := &verifDirRemote{dir: remoteDir, counts: map[string]int{}}
+		if lp := os.Getenv("VERIF_REMOTE_LOG"); lp != "" {
+			remote.log, _ = os.OpenFile(lp, os.O_WRONLY|os.O_CREATE|os.O_APPEND, 0o644)
+		}
+		if spec := os.Getenv("VERIF_REMOTE_FAULT"); spec != "" {
+			i := strings.Index(spec, "#")
+			j := strings.LastIndex(spec, ":")
+			if i > 0 && j > i {
+				remote.op = spec[:i]
+				remote.nth, _ = strconv.Atoi(spec[i+1 : j])
+				remote.mode = spec[j+1:]
+			}
+		}
+		inner = NewRemoteWrapper(fs, remote)
+	} else {
+		inner, err = verifOrigGetCacheBackend(ctx, cacheConfig)
+		if err != nil {
+			return nil, err
+		}
 	}
 	spec := os.Getenv("VERIF_BACKEND_FAULT")
 	logPath := os.Getenv("VERIF_BACKEND_LOG")
@@ -137,4 +161,111 @@ func GetCacheBackend(ctx context.Context, cacheConfig config.CacheConfig) (Cache
 		}
 	}
 	return f, nil
+}
+
+// verifDirRemote is an object store faked by a directory (objects are written
+// atomically, like a real object store's PUT).
+type verifDirRemote struct {
+	dir    string
+	mu     sync.Mutex
+	counts map[string]int
+	log    *os.File
+	op     string
+	nth    int
+	mode   string
+}
+
+func (r *verifDirRemote) TypeName() string { return "verif-dir-remote" }
+
+func (r *verifDirRemote) hit(op, path, key string) string {
+	r.mu.Lock()
+	defer r.mu.Unlock()
+	r.counts[op]++
+	if r.log != nil {
+		r.log.WriteString(op + " " + path + " " + key + "\n")
+	}
+	if r.op == op && r.counts[op] == r.nth {
+		return r.mode
+	}
+	return ""
+}
+
+func (r *verifDirRemote) file(path, key string) string {
+	return r.dir + "/" + strings.Trim(path, "/") + "/" + strings.Trim(key, "/")
+}
+
+func (r *verifDirRemote) Get(ctx context.Context, path, key string) (io.ReadCloser, error) {
+	mode := r.hit("get", path, key)
+	switch mode {
+	case "err":
+		return nil, fmt.Errorf("remote get %s/%s: %w", path, key, errInjected)
+	case "miss":
+		return nil, os.ErrNotExist
+	}
+	f, err := os.Open(r.file(path, key))
+	if err != nil {
+		return nil, err
+	}
+	if mode == "late" {
+		return &failingReader{r: f, left: 1}, nil
+	}
+	return f, nil
+}
+
+func (r *verifDirRemote) Set(ctx context.Context, path, key string, content io.Reader) error {
+	mode := r.hit("set", path, key)
+	switch mode {
+	case "err":
+		return fmt.Errorf("remote set %s/%s: %w", path, key, errInjected)
+	case "late":
+		io.Copy(io.Discard, content)
+		return fmt.Errorf("remote set %s/%s: %w", path, key, errInjected)
+	case "ignore-body":
+		// fails without reading the body at all
+		return fmt.Errorf("remote set %s/%s: %w", path, key, errInjected)
+	}
+	p := r.file(path, key)
+	dir := p[:strings.LastIndex(p, "/")]
+	if err := os.MkdirAll(dir, 0o755); err != nil {
+		return err
+	}
+	tmp, err := os.CreateTemp(dir, "tmp-*")
+	if err != nil {
+		return err
+	}
+	if _, err := io.Copy(tmp, content); err != nil {
+		tmp.Close()
+		os.Remove(tmp.Name())
+		return err
+	}
+	tmp.Close()
+	return os.Rename(tmp.Name(), p)
+}
+
+func (r *verifDirRemote) Delete(ctx context.Context, path string, key string) error {
+	if r.hit("delete", path, key) == "err" {
+		return errInjected
+	}
+	err := os.Remove(r.file(path, key))
+	if os.IsNotExist(err) {
+		return nil
+	}
+	return err
+}
+
+func (r *verifDirRemote) Exists(ctx context.Context, path string, key string) (bool, error) {
+	switch r.hit("exists", path, key) {
+	case "err":
+		return false, errInjected
+	case "miss":
+		return false, nil
+	}
+	_, err := os.Stat(r.file(path, key))
+	if err == nil {
+		return true, nil
+	}
+	if os.IsNotExist(err) {
+		return false, nil
+	}
+	return false, err
 }
